@@ -16,7 +16,7 @@ import (
 	"verif/engine/sx"
 )
 
-func tmplForType(tm *refsem.TModel, free bool, thorough bool) *sx.Tmpl {
+func tmplForType(tm *refsem.TModel, free bool, thorough bool, schema *jsonschema.Schema) *sx.Tmpl {
 	d := tm.Depth()
 	if d > 3 {
 		d = 3
@@ -28,37 +28,61 @@ func tmplForType(tm *refsem.TModel, free bool, thorough bool) *sx.Tmpl {
 	// every object node gets its own key pool: the JSON names of the struct it stands for plus a
 	// fresh name, two keys for maps, one for untyped positions
 	pools := map[string][]string{}
-	var walk func(m *refsem.TModel, node string, depth int)
-	walk = func(m *refsem.TModel, node string, depth int) {
+	// The names the inferred schema declares at the corresponding place join the pool, so that a
+	// property the schema has but the type does not is a key the instance can carry.
+	sub := func(s *jsonschema.Schema, f func(*jsonschema.Schema) *jsonschema.Schema) *jsonschema.Schema {
+		if s == nil {
+			return nil
+		}
+		return f(s)
+	}
+	var walk func(m *refsem.TModel, node string, depth int, s *jsonschema.Schema)
+	walk = func(m *refsem.TModel, node string, depth int, s *jsonschema.Schema) {
 		if m == nil || depth > d {
 			return
 		}
 		switch m.Kind {
 		case refsem.TKPtr:
-			walk(m.Elem, node, depth)
+			walk(m.Elem, node, depth, s)
 		case refsem.TKSlice, refsem.TKArray:
 			for i := 0; i < maxLen; i++ {
-				walk(m.Elem, fmt.Sprintf("%s[%d]", node, i), depth+1)
+				walk(m.Elem, fmt.Sprintf("%s[%d]", node, i), depth+1, sub(s, func(s *jsonschema.Schema) *jsonschema.Schema { return s.Items }))
 			}
 		case refsem.TKMap:
 			pools[node] = []string{"a", "zz"}
 			for _, k := range pools[node] {
-				walk(m.Elem, fmt.Sprintf("%s{%s}", node, k), depth+1)
+				walk(m.Elem, fmt.Sprintf("%s{%s}", node, k), depth+1, sub(s, func(s *jsonschema.Schema) *jsonschema.Schema { return s.AdditionalProperties }))
 			}
 		case refsem.TKStruct:
 			var ks []string
+			have := map[string]bool{"zz": true}
 			for _, f := range m.Fields {
 				ks = append(ks, f.Name)
+				have[f.Name] = true
 			}
 			ks = append(ks, "zz")
+			if s != nil {
+				var extra []string
+				for k := range s.Properties {
+					if !have[k] {
+						extra = append(extra, k)
+					}
+				}
+				sort.Strings(extra)
+				if len(extra) > 3 {
+					extra = extra[:3]
+				}
+				ks = append(ks, extra...)
+			}
 			sort.Strings(ks)
 			pools[node] = ks
 			for _, f := range m.Fields {
-				walk(f.Model, fmt.Sprintf("%s{%s}", node, f.Name), depth+1)
+				f := f
+				walk(f.Model, fmt.Sprintf("%s{%s}", node, f.Name), depth+1, sub(s, func(s *jsonschema.Schema) *jsonschema.Schema { return s.Properties[f.Name] }))
 			}
 		}
 	}
-	walk(tm, "I", 0)
+	walk(tm, "I", 0, schema)
 	return &sx.Tmpl{Depth: d, MaxLen: maxLen, Keys: []string{"a"}, KeysFor: func(name string) ([]string, bool) {
 		ks, ok := pools[name]
 		return ks, ok
@@ -105,7 +129,7 @@ func (w *Worker) RunTypeCase(tcase TypeCase, enc bool, property string, thorough
 	}
 	m := w.NewMachine()
 	res.Stats = m.Stats
-	tmpl := tmplForType(tm, !enc, thorough)
+	tmpl := tmplForType(tm, !enc, thorough, schema)
 	root := m.NewNode("I", tmpl)
 	orc := &refsem.TypeOracle{M: m, C: m.Ctx}
 	ctx := m.Ctx
